@@ -272,6 +272,9 @@ class Check:
         rx = prng.derive(prng.base_seed(), 'c10-extra', tier, index)
         if w.get('sub') is not None and w['sub']['kind'] == 'wrap' and w.get('cmd') != 'download' and rx.random() < 0.4:
             w['sibling'] = True
+        # a lookup under two names: the first is only known to the system, the second was overridden by the project - the override wins
+        if rx.random() < 0.5:
+            w['multi'] = True
         return w
 
     # ------------------------------------------------------------------ world on disk
@@ -305,6 +308,12 @@ class Check:
                 kw.append(f"static: {'true' if c['static'] else 'false'}")
             lines.append(f"d{i} = dependency('foo', {', '.join(kw)})\n")
             lines.append(f"message('DEP {i} found=@0@ type=@1@ version=@2@'.format(d{i}.found(), d{i}.type_name(), d{i}.found() ? d{i}.version() : 'n/a'))\n")
+        if w.get('multi'):
+            with open(os.path.join(pc, 'c10sys.pc'), 'w') as f:
+                f.write("Name: c10sys\nDescription: only the system has it\nVersion: 1.0\nLibs: -lc10sys\n")
+            lines.append("meson.override_dependency('c10ovr', declare_dependency(version: '7.7'))\n"
+                         "dm = dependency('c10sys', 'c10ovr', required: false)\n"
+                         "message('MULTI found=@0@ type=@1@ version=@2@'.format(dm.found(), dm.type_name(), dm.found() ? dm.version() : 'n/a'))\n")
         if w.get('sibling'):
             lines.append("sib = subproject('sibsub', required: false)\nmessage('SIB found=@0@'.format(sib.found()))\n")
         with open(os.path.join(sd, 'meson.build'), 'w') as f:
@@ -518,6 +527,13 @@ class Check:
             if 'Traceback (most recent call last)' in out and not (st.sub_acq is not None and st.sub_acq.stage == 'patch-unpack'):
                 return R.violation('sut-exception', f'run {run_i}: traceback printed: {out[-2000:]}', 'sut-exception:printed', **base)
             # ---- integrity invariants (independent of the policy model)
+            if w.get('multi') and not is_download:
+                mm = re.search(r'MULTI found=(\S+) type=(\S+) version=(\S+)', out)
+                if mm is not None and mm.groups() != ('true', 'internal', '7.7'):
+                    return R.violation('policy', f"run {run_i}: dependency('c10sys', 'c10ovr') with c10ovr overridden by the project (7.7) and c10sys 1.0 on the system gives "
+                                       f'{mm.groups()}: an overridden dependency wins', 'policy:multi-name:override-loses', **base)
+                if mm is not None:
+                    add(probes, 'multi-name-lookup')
             if w.get('sibling'):
                 sib_rq = [rq for rq in v['requests'] if rq['url'] == SIB_URL]
                 if sib_rq:
